@@ -42,7 +42,8 @@ Record config := {
   c_upload : bool;      (* SetUploadURLProvider *)
   c_introspect : bool;  (* EnableTokenIntrospection *)
   c_oauth : bool;       (* SetOAuthResourceMetadata *)
-  c_cors : bool }.      (* SetCorsOrigins *)
+  c_cors : bool;        (* SetCorsOrigins *)
+  c_maxreq : bool }.    (* SetMaxRequestBytes(4096): the pre-dispatch 413 refusal in ServeHTTP *)
 
 (* what the configured AuthenticateFunc returns for every request *)
 Inductive auth_mode :=
@@ -295,7 +296,8 @@ Inductive sess := S_none | S_garbage | S_anon | S_alice.   (* VGI-Session: absen
 
 Record request := {
   q_meth : meth; q_path : bytes; q_ctype : ctype; q_body : body; q_sess : sess;
-  q_html : bool }.      (* Accept: text/html *)
+  q_html : bool;        (* Accept: text/html *)
+  q_big : bool }.       (* the declared Content-Length exceeds max_request_bytes (4096) *)
 
 Inductive work :=
   | W_body            (* the request body was read *)
@@ -308,7 +310,8 @@ Inductive work :=
   | W_provider        (* the upload-URL provider ran *)
   | W_describe        (* the __describe__ batch was built and returned *)
   | W_session_close   (* a sticky session's state was closed *)
-  | W_custom.         (* an operator-registered handler ran *)
+  | W_custom          (* an operator-registered handler ran *)
+  | W_vend.           (* a pre-signed URL appears on the response (any header, or the body) *)
 Scheme Equality for work.
 
 (* response body classes: nothing / exactly the standard 401 JSON document /
@@ -385,7 +388,7 @@ Definition h_upload (c : config) (q : request) : N * list work :=
   if negb (c_upload c) then (404, [])
   else if negb (arrow_ct q) then (415, [])
   else match q_body q with
-       | B_req n => if beqb n c22_upload_seg then (200, [W_body; W_provider]) else (400, [W_body])
+       | B_req n => if beqb n c22_upload_seg then (200, [W_body; W_provider; W_vend]) else (400, [W_body])
        | _ => (400, [W_body])
        end.
 
@@ -465,18 +468,34 @@ Definition run_route_gen (legacy : bool) (c : config) (a : auth_mode) (x : ctxc)
 Definition is_options (m : meth) : bool := match m with M_OPTIONS => true | _ => false end.
 Definition redirect_status : N := Z.to_N c22_redirect_status.
 
+(* isMaxBytesExempt on r.URL.Path (the DECODED path, before any cleaning):
+   /health and {prefix}/health and everything below them *)
+Definition whole_unesc (raw : bytes) : bytes := match unesc raw with Some u => u | None => raw end.
+Definition under (base p : bytes) : bool := beqb p base || has_prefix (base ++ [47]) p.
+Definition exempt (c : config) (raw : bytes) : bool :=
+  let p := whole_unesc raw in
+  under (str "/health") p
+  || (c_prefix c && under (47 :: c22_prefix_seg ++ str "/health") p).
+
+(* the max_request_bytes fast path: taken before the mux, before any handler
+   and therefore before the authenticator *)
+Definition pre413 (c : config) (q : request) : bool :=
+  c_maxreq c && q_big q && negb (exempt c (q_path q)).
+
 (* ServeHTTP *)
 Definition serve_gen (legacy : bool) (c : config) (a : auth_mode) (x : ctxc) (q : request) : obs :=
   let pk := pkce_on c a in
   match parse_path (q_path q) with
   | None =>
-      {| o_status := if is_options (q_meth q) then 204 else redirect_status;
+      {| o_status := if is_options (q_meth q) then 204 else if pre413 c q then 413 else redirect_status;
          o_work := []; o_consulted := false; o_pat := []; o_body := None |}
   | Some (ss, tr) =>
       let d := dispatch c pk (q_meth q) ss tr in
       let ps := match d with D_route r => pat_str (route_pat c r) | _ => [] end in
-      if is_options (q_meth q) then   (* CORS preflight: answered before the mux *)
+      if is_options (q_meth q) then   (* CORS preflight: answered before everything else *)
         {| o_status := 204; o_work := []; o_consulted := false; o_pat := ps; o_body := Some BK_empty |}
+      else if pre413 c q then         (* refused on the declared length alone, before the mux: nothing runs *)
+        {| o_status := 413; o_work := []; o_consulted := false; o_pat := ps; o_body := None |}
       else match d with
            | D_route r =>
                let '(st, w, cs) := run_route_gen legacy c a x r ss q in
@@ -495,6 +514,7 @@ Definition serve := serve_gen false.
 (* the route a request is handed to (None: preflight, redirect, the mux's own 404/405) *)
 Definition routed (c : config) (a : auth_mode) (q : request) : option rid :=
   if is_options (q_meth q) then None
+  else if pre413 c q then None
   else match parse_path (q_path q) with
        | None => None
        | Some (ss, tr) =>
@@ -542,6 +562,8 @@ Definition spec_ok (i : input) (o : obs) : bool :=
       | AR_pass => true
       | AR_rej st =>
           if is_options (q_meth q) then (o_status o =? 204) && is_nil (o_work o) && negb (o_consulted o)
+          else if pre413 c q then   (* over the cap: 413 and nothing else, whatever the route *)
+            (o_status o =? 413) && is_nil (o_work o) && negb (o_consulted o)
           else match o_pat o with
                | [] => is_nil (o_work o) && negb (o_consulted o)
                | s => match route_of_pat c (pkce_on c a) s with
@@ -562,10 +584,10 @@ Definition bools : list bool := [false; true].
 Definition all_configs : list config :=
   flat_map (fun a => flat_map (fun b => flat_map (fun c => flat_map (fun d =>
   flat_map (fun e => flat_map (fun f => flat_map (fun g => flat_map (fun h =>
-  flat_map (fun i => flat_map (fun j => map (fun k =>
+  flat_map (fun i => flat_map (fun j => flat_map (fun k => map (fun l =>
     {| c_prefix := a; c_landing := b; c_describe := c; c_notfound := d; c_sticky := e; c_pkce := f;
-       c_custom := g; c_upload := h; c_introspect := i; c_oauth := j; c_cors := k |})
-  bools) bools) bools) bools) bools) bools) bools) bools) bools) bools) bools.
+       c_custom := g; c_upload := h; c_introspect := i; c_oauth := j; c_cors := k; c_maxreq := l |})
+  bools) bools) bools) bools) bools) bools) bools) bools) bools) bools) bools) bools.
 
 Definition all_auth : list auth_mode :=
   [A_none; A_ok; A_introspector; A_fail; A_fail_wrapped; A_valerr; A_valerr_wrapped; A_permerr;
@@ -575,7 +597,7 @@ Definition config_of_mask (m : N) : config :=
   {| c_prefix := N.testbit m 0; c_landing := N.testbit m 1; c_describe := N.testbit m 2;
      c_notfound := N.testbit m 3; c_sticky := N.testbit m 4; c_pkce := N.testbit m 5;
      c_custom := N.testbit m 6; c_upload := N.testbit m 7; c_introspect := N.testbit m 8;
-     c_oauth := N.testbit m 9; c_cors := N.testbit m 10 |}.
+     c_oauth := N.testbit m 9; c_cors := N.testbit m 10; c_maxreq := N.testbit m 11 |}.
 
 Definition bmem (x : bytes) (l : list bytes) : bool := existsb (beqb x) l.
 Definition nth_bit (u : list bytes) (name : bytes) : N :=
@@ -588,6 +610,9 @@ Definition row_cfg (r : bytes) : N := be (take 2 r).
 Definition row_reg (r : bytes) : N := be (take 8 (drop 2 r)).
 Definition row_rej (r : bytes) : N := be (take 8 (drop 10 r)).
 Definition row_cons (r : bytes) : N := be (take 8 (drop 18 r)).
+(* patterns whose probe, repeated with a Content-Length above the request cap,
+   made the upload-URL provider run or carried a pre-signed URL *)
+Definition row_vend (r : bytes) : N := be (take 8 (drop 26 r)).
 
 (* a probe under an always-rejecting authenticator is answered 401 with the
    authenticator consulted exactly on the routes whose first action is the
@@ -606,7 +631,8 @@ Definition row_ok (row : bytes) : bool :=
   forallb (fun s => bmem s c22_universe) pats
   && (mask_of pats =? row_reg row)
   && (mask_of spats =? row_rej row)
-  && (mask_of spats =? row_cons row).
+  && (mask_of spats =? row_cons row)
+  && (row_vend row =? 0).
 
 (* short names used by the generated case files *)
 Definition cfgm : N -> config := config_of_mask.
